@@ -681,6 +681,13 @@ def _f_round_int(c):
     return c['key'] == 'ROUND/int,small' and not _null_in(c) and c['args'][1] < 0 and _val(c) == c['args'][0]
 
 
+@finding('round_infinity_with_vanishing_scale_nan', 'ROUND', 'ROUND(+-infinity, d) with d so negative that 10^d underflows to 0 computes inf * 0 = NaN instead of returning the infinity',
+         'SELECT ROUND(INFINITY(), -2147483648) returned NaN, Trino returns Infinity (non-finite arguments are returned unchanged)', 'ROUND/dbl,small, x infinite, d < -300, engine NaN (thorough tier domain)')
+def _f_round_inf(c):
+    a = c['args']
+    return c['key'] == 'ROUND/dbl,small' and not _null_in(c) and FR.isinf(a[0]) and a[1] < -300 and FR.isnan(_val(c))
+
+
 @finding('truncate_second_argument_ignored', 'TRUNCATE', 'TRUNCATE(x, n) ignores n and truncates to an integer', 'SELECT TRUNCATE(0.5, 1) returned 0.0, Trino documents 0.5',
          'TRUNCATE|TRUNC/dbl,small, engine value == trunc(x)')
 def _f_trunc_n(c):
@@ -961,7 +968,7 @@ def _f_url_port(c):
 @finding('date_diff_month_year_ignores_day', 'DATE_DIFF', "DATE_DIFF('month'|'year', a, b) subtracts the calendar fields and ignores the day of month / time of day: incomplete months and years are counted",
          "SELECT DATE_DIFF('month', DATE '2023-12-31', DATE '2024-12-30') returned 12, Trino documents 11", 'DATE_DIFF month|year, engine value == (y2-y1)*12+(m2-m1) resp. y2-y1')
 def _f_date_diff(c):
-    m = re.match(r'DATE_DIFF/(month|year)/', c['key'])
+    m = re.match(r'DATE_?DIFF/(month|year)/', c['key'])
     if not m or _null_in(c):
         return False
     a, b = c['args']
